@@ -60,6 +60,8 @@ def stepStr : PStep → String
   | .appendTmp rs => s!"append manifest.tmp.json {recsStr rs}"
   | .renameTmp => "rename manifest.tmp.json manifest.json"
   | .rmdir t r => s!"rmdir {t}_{r}"
+  | .rmdv t r d => s!"unlink dv/{t}_{r}_{d}.dv"
+  | .syncDir => "syncdir"
 
 abbrev AbsT := List (String × List (List Int))
 
